@@ -35,9 +35,9 @@ def install_datagram_env(ip):
 
     def loop_handler(ip_, o, name, args, kw, ctx):
         if name in ("call_soon", "call_soon_threadsafe", "call_later", "call_at"):
-            # E7: the loop runs a scheduled callable in a LATER iteration - not before the current callback returns, and
+            # E8: the loop runs a scheduled callable in a LATER iteration - not before the current callback returns, and
             # possibly after whatever the application does next (stop() included).  It is recorded, not executed.
-            ctx.used_models.add("E7: loop.call_soon/call_later defer the callable to a later loop iteration")
+            ctx.used_models.add("E8: loop.call_soon/call_later defer the callable to a later loop iteration")
             ctx.ghost.events.append(("deferred", name, tuple(args)))
             return EnvObj("handle", cancelled=False)
         if name != "create_datagram_endpoint":
